@@ -326,7 +326,7 @@ def _atof64_check(rep, mod):
     if guarded_outptr_rule(rep, 'R-ATOF64', f, fname, 1) == 0:
         raise AnalysisBroken('%s never stores the end pointer' % fname)
     atof_shapes(rep, mod, fname, 'R-ATOF64-SHAPE')
-    rep.floor('R-ATOF64-SHAPE:post', 18)
+    rep.floor('R-ATOF64-SHAPE:post', 27)
 
 
 def atof_shapes(rep, mod, fname, rule):
@@ -341,6 +341,9 @@ def atof_shapes(rep, mod, fname, rule):
               ('digit point digit letter: "1.5x"', [D, (46, 46), D, X], 3),
               ('digit point exponent: "1.e5"', [D, (46, 46), (101, 101), D], 4),
               ('digit exponent: "1E5"', [D, (69, 69), D], 3),
+              ('digit exponent plus digit: "1e+5"', [D, (101, 101), (43, 43), D], 4),
+              ('digit exponent minus digit: "1E-5"', [D, (69, 69), (45, 45), D], 4),
+              ('digit point digit exponent plus digit letter: "1.5e+3x"', [D, (46, 46), D, (101, 101), (43, 43), D, X], 6),
               ('digit letter: "1x"', [D, X], 1)]
     for (label, classes, end) in shapes:
         it = InterpF(mod)
